@@ -737,6 +737,26 @@ proof fn lemma_layout_weighted_var_axis<A: AddAssign + Float + FromPrimitive, D:
            r1 is Ok && wt > 0real && wt - ddof.val() != 0real ==> forall|j: int| 0 <= j < r1->Ok_0@.len() ==> (#[trigger] r1->Ok_0@[j]).val() == r2->Ok_0@[j].val() }), // [C20]
 {
 }
+proof fn lemma_layout_weighted_std_axis<A: AddAssign + Float + FromPrimitive, D: RemoveAxis>(a1: ArrayN<A, D>, a2: ArrayN<A, D>, axis: Axis, w1: ArrayN<A, Ix1>, w2: ArrayN<A, Ix1>, ddof: A, r1: Result<ArrayN<A, D::Smaller>, MultiInputError>, r2: Result<ArrayN<A, D::Smaller>, MultiInputError>)
+    requires
+        same_lanes(&a1, &a2, axis.0 as int), w1@ == w2@ && w1.shape_spec() == w2.shape_spec(),
+        call_ensures(ArrayN::<A, D>::weighted_std_axis, (&a1, axis, &w1, ddof), r1), call_ensures(ArrayN::<A, D>::weighted_std_axis, (&a2, axis, &w2, ddof), r2),
+    ensures
+        r1 is Err <==> r2 is Err, r1 is Err ==> same_err(r1->Err_0, r2->Err_0), // [C20]
+        r1 is Ok ==> r1->Ok_0@.len() == r2->Ok_0@.len(), // [C20]
+        ({ let ws = vals(w1@); let wt = wpsum(ws, ws, 0, ws.len() as int);
+           r1 is Ok && wt > 0real && wt - ddof.val() != 0real ==> forall|j: int| 0 <= j < r1->Ok_0@.len() ==> (#[trigger] r1->Ok_0@[j]).val() == r2->Ok_0@[j].val() }), // [C20]
+{
+}
+proof fn lemma_layout_central_moments<A: Float + FromPrimitive, D: Dimension>(a1: ArrayN<A, D>, a2: ArrayN<A, D>, order: u16, r1: Result<Vec<A>, MinMaxError>, r2: Result<Vec<A>, MinMaxError>)
+    requires
+        same_logical(&a1, &a2),
+        call_ensures(ArrayN::<A, D>::central_moments, (&a1, order), r1), call_ensures(ArrayN::<A, D>::central_moments, (&a2, order), r2),
+    ensures
+        r1 is Err ==> r1 == r2, r2 is Err ==> r1 == r2, // [C20]
+        r1 is Ok && r2 is Ok ==> r1->Ok_0@.len() == r2->Ok_0@.len() && forall|p: int| 0 <= p < r1->Ok_0@.len() ==> (#[trigger] r1->Ok_0@[p]).val() == r2->Ok_0@[p].val(), // [C20]
+{
+}
 
 } // verus!
 fn main() {}
